@@ -4,6 +4,7 @@ Every kind x subtype x arrays with missing / empty elements and non-finite coord
 slice / take / mask / concat (non-zero buffer offsets); `bounds`, `total_bounds`, `total_bounds_x/y`,
 the GeoSeries, Dask and spatial-index versions, against the Lean model `Bounds.totalBounds`."""
 import json
+import os
 import math
 
 import numpy as np
@@ -212,10 +213,46 @@ def half_defined_partitions(chk, r, tier):
         chk.count("wrapper:dask-half-defined-partition")
 
 
+def pruned_read_columns(chk, r, tier):
+    """a Dask frame loaded with read_parquet_dask(bounds=box) from a dataset with two geometry columns: the total bounds of every
+    geometry column - the one the pruning used and the other one - are the extents of the rows that were loaded"""
+    import shutil
+    import tempfile
+    import dask.dataframe as dd
+    from spatialpandas import GeoDataFrame
+    from spatialpandas.io import read_parquet_dask
+    tmp = tempfile.mkdtemp(prefix="spv_c13_")
+    try:
+        for k in range(2 if tier == "quick" else 8):
+            n, nparts = 20, 4
+            pts = [[10 * (i // 5) + r.randint(0, 4), r.randint(0, 9)] for i in range(n)]
+            lines = [[100 - 10 * (i // 5) + r.randint(0, 4), 50 + i, 100 - 10 * (i // 5) + 5, 60 + i] for i in range(n)]
+            df = GeoDataFrame({"points": geo.make_array("point", pts, "float64"), "lines": geo.make_array("line", lines, "float64"), "v": list(range(n))})
+            path = os.path.join(tmp, f"two_{k}.parq")
+            dd.from_pandas(df, npartitions=nparts).to_parquet(path)
+            for active, box in (("points", (-1, -1, 16, 20)), ("lines", (60, 0, 89, 200)), ("points", (25, -5, 100, 50))):
+                rd = read_parquet_dask(path, geometry=active, bounds=box)
+                loaded = rd.compute()
+                rep = dict(api="read_parquet_dask(geometry=, bounds=)", active=active, box=list(box), partitions_loaded=rd.npartitions, rows_loaded=len(loaded))
+                for col in ("points", "lines"):
+                    got = canon_row(rd[col].total_bounds)
+                    want = canon_row(loaded[col].array.total_bounds) if len(loaded) else ["nan"] * 4
+                    chk.evaluated()
+                    if got != want and any(t != "nan" for t in want):
+                        chk.violation(f"DaskGeoSeries.total_bounds/pruned-read/{'active' if col == active else 'other-geometry-column'}-differs",
+                                      dict(rep, column=col, impl=got, from_loaded_rows=want))
+        chk.count("wrapper:dask-pruned-read")
+    except Exception as e:  # noqa: BLE001
+        chk.violation(f"DaskGeoSeries.total_bounds/pruned-read-raises-{common.err_kind(e)}", dict(api="read_parquet_dask", error=repr(e)[:300]))
+    finally:
+        shutil.rmtree(tmp, ignore_errors=True)
+
+
 def run_cases(chk, tier):
     r = common.rng(PROP)
     rounds = 6 if tier == "quick" else 40
     half_defined_partitions(chk, r, tier)
+    pruned_read_columns(chk, r, tier)
     for kind in geo.KINDS:
         # fixed structural cases first
         fixed = [[], [None], [None, None]]
